@@ -1,6 +1,8 @@
 import Ovldverif.Model.Json
 import Ovldverif.Model.JsonD
+import Ovldverif.Model.JsonF
 import Ovldverif.Spec.Types
+import Ovldverif.Spec.Resolve
 /-! Line-protocol driver: one JSON scenario per input line, one JSON result per output line. -/
 open Lean Ovld
 
@@ -31,6 +33,11 @@ def slotStr : Slot → String
   | .pos i => s!"p{i}"
   | .kw n => s!"k{n}"
 
+def specToJson : SpecRes → Json
+  | .ran id => Json.arr #[Json.str "ran", toJson id]
+  | .ambiguous => Json.arr #[Json.str "ambiguous"]
+  | .noMethod => Json.arr #[Json.str "nomethod"]
+
 def runD (j : Json) : Except String Json := do
   let cfg ← cfgOfJson j
   let meths ← (← jArr (← jField j "meths")).toList.mapM methOfJson
@@ -54,8 +61,15 @@ def runD (j : Json) : Except String Json := do
       match keys[ki]? with
       | some k =>
         let (mm', r) := mm.lookup cfg (c, k)
+        let fresh := (({ meths := mm.meths, empty := mm.empty } : MMap).lookup cfg (c, k)).2
         mm := mm'
-        res := resToJson r
+        let spec := match c with
+          | none => specResolve cfg.H mm.meths k
+          | some code => nextSpec cfg.H mm.meths code k
+        res := Json.mkObj [("res", resToJson r), ("fresh", resToJson fresh), ("spec", specToJson spec),
+          ("static", toJson (staticTable mm.meths)), ("cc", toJson (candComparable cfg.H mm.meths k)),
+          ("tie", toJson (sigTieOK cfg.H mm.meths k)),
+          ("napp", toJson (applicable cfg.H mm.meths k).length)]
       | none => throw "bad key index"
     else throw s!"bad op {kind}"
     let ck := dedupS (mm.st.cacheKeys.map (ckStr keys))
@@ -67,6 +81,38 @@ def runD (j : Json) : Except String Json := do
     out := out.push (Json.mkObj [("r", res), ("ck", toJson ck), ("ek", toJson ek), ("ak", toJson ak), ("tk", toJson tk)])
   return Json.mkObj [("ops", Json.arr out)]
 
+def runF (j : Json) : Except String Json := do
+  let cfg ← cfgOfJson j
+  let pool ← (← jArr (← jField j "args")).mapM argOfJson
+  let defs ← (← jArr (← jField j "defs")).mapM (defOfJson pool)
+  let ops ← jArr (← jField j "ops")
+  let mut fn : Fn := { allowReplacement := ← jBool (jFieldD j "allowReplacement" (Json.bool true)) }
+  let mut out : Array Json := #[]
+  for op in ops do
+    let a ← jArr op
+    let kind ← jStr a[0]!
+    if kind == "reg" then
+      match defs[(← jNat a[1]!)]? with
+      | some d =>
+        let (fn', e) := fn.register d
+        fn := fn'
+        out := out.push (Json.mkObj [("o", match e with | some o => outcomeToJson o | none => Json.arr #[Json.str "ok"])])
+      | none => throw "bad def index"
+    else if kind == "unreg" then
+      match defs[(← jNat a[1]!)]? with
+      | some d =>
+        let (fn', e) := fn.unregister d.d.id
+        fn := fn'
+        out := out.push (Json.mkObj [("o", match e with | some o => outcomeToJson o | none => Json.arr #[Json.str "ok"])])
+      | none => throw "bad def index"
+    else if kind == "call" then
+      let c ← callOfJson pool a
+      let (fn', o, t) := fn.call cfg c
+      fn := fn'
+      out := out.push (Json.mkObj [("o", outcomeToJson o), ("t", traceToJson t)])
+    else throw s!"bad op {kind}"
+  return Json.mkObj [("ops", Json.arr out)]
+
 def runLine (line : String) : String :=
   match Json.parse line with
   | .error e => (Json.mkObj [("error", Json.str s!"parse: {e}")]).compress
@@ -76,6 +122,7 @@ def runLine (line : String) : String :=
       match layer with
       | "A" => runA j
       | "D" => runD j
+      | "F" => runF j
       | _ => throw s!"unknown layer {layer}"
     match r with
     | .ok v => v.compress
